@@ -18,7 +18,8 @@ RULE = (
     "3 exception types, before/after effect) [thorough: + <=1 ordinary deviation]; non-trivial = an "
     "interruption was injected; distinct = distinct (stack, op names, plan kinds, result kinds)"
 )
-STACKS = ("client", "pooled1", "pooled2", "pooled_idle", "hash1", "hash2p")
+STACKS = ("client", "pooled1", "pooled2", "pooled_idle", "hash1", "hash2p", "client_ign", "pooled_ign", "hash1_ign")
+FETCH_OPS = ("get", "gets", "gat", "gats", "get_many", "gets_many", "stats")
 INT_ONLY = simnet.with_interrupts({})
 INT_PLUS = simnet.with_interrupts(simnet.MENU_CONN)
 INT_PLUS1 = simnet.with_interrupts(simnet.MENU_CONN, kinds=("baseexc",))
@@ -33,6 +34,9 @@ def _cfg(stack):
         return "pooled", {"max_pool_size": 2}
     if stack == "pooled_idle":
         return "pooled", {"max_pool_size": 2, "pool_idle_timeout": IDLE}
+    if stack.endswith("_ign"):
+        # ignore_exc swallows errors; an interruption is not an error and must still clean up and propagate
+        return {"client_ign": "client", "pooled_ign": "pooled", "hash1_ign": "hash1"}[stack], {"ignore_exc": True}
     return stack, {}
 
 
@@ -65,7 +69,8 @@ def _stack_class(stack):
 
 def _jobs(tier):
     alpha = _alphabet()
-    return [(stack, i1, tier) for stack in STACKS for i1 in range(len(alpha))]
+    return [(stack, i1, tier) for stack in STACKS for i1 in range(len(alpha))
+            if not stack.endswith("_ign") or stack == "hash1_ign" or alpha[i1].name in FETCH_OPS]
 
 
 def run_seq(ch, stack, seq, menu):
